@@ -116,7 +116,7 @@ class Real:
                     rec(i, 'double')
             elif op == 'spawn':
                 child = s['child']
-                p = env.process(self.gen(child, phase))
+                p = env.process(self.gen_noyield(child) if child.get('noyield') else self.gen(child, phase))
                 self.procs[child['name']] = p
                 yield from wait(i, p)
             elif op == 'cond':
@@ -152,6 +152,17 @@ class Real:
             else:
                 raise InvalidCase(op)
         rec(len(steps), 'end')
+
+    def gen_noyield(self, spec):
+        """a process whose generator ends before its first yield: still an event that fires with its outcome"""
+        log = self.log.setdefault(spec['name'], [])
+        s = spec['steps'][0]
+        if s['op'] == 'return':
+            log.append((0, 'return', self.env.now, s.get('v')))
+            return s.get('v')
+        log.append((0, 'raise', self.env.now, s['x']))
+        raise SpyErr(s['x'])
+        yield      # noqa  (makes this a generator function)
 
     @staticmethod
     async def _coro(d, v):
@@ -438,6 +449,10 @@ class Model:
         self.advance(p)
 
     def advance(self, p, first=False):
+        if first and p.spec.get('noyield'):
+            if len(p.spec['steps']) != 1 or p.spec['steps'][0]['op'] not in ('return', 'raise'):
+                raise InvalidCase('a process without a yield only returns or raises')
+            first = False
         if first:
             p.idx = -1
             d = delta(self.now, p.phase)
